@@ -17,8 +17,8 @@ def main():
         rows.append((sid, m.get("needs", ""), ", ".join(m.get("caught_by", [])) or "-", ", ".join(m.get("missed_by", [])) or "-",
                      m.get("matrix_error", "")))
     out = ["### 10.7 Seeded changes and catalogue mutants against the quick checks", "",
-           "Confirmed seeded changes (`seeded/<id>/`: `patch.diff`, `demo.py`, `meta.json`). \\"caught by\\" = quick checks that exit 1 with the",
-           "change applied to a scratch copy of the current `/repo` (own property plus related ones were tried; \\"not affected\\" lists related",
+           "Confirmed seeded changes (`seeded/<id>/`: `patch.diff`, `demo.py`, `meta.json`). 'caught by' = quick checks that exit 1 with the",
+           "change applied to a scratch copy of the current `/repo` (own property plus related ones were tried; 'not affected' lists related",
            "checks that legitimately stay silent because the change does not touch their property).", "",
            "| seed | needs, to manifest | caught by | not affected |", "|---|---|---|---|"]
     for sid, needs, caught, missed, err in rows:
